@@ -51,7 +51,7 @@ func runC05(w *World, r *Report) {
 	r.Rule("C05/STABLE-SORT", "sorts that carry an ordering guarantee on the render path use stable variants (kind sort of manifests and hooks), and the template order comparator is total", 3)
 	r.Rule("C05/FUNCMAP", "no template function reaches environment, file-system, network or process primitives: sprig entries that do are deleted on every path of funcMap(), getHostByName is stubbed unless EnableDNS, helm's own functions and Files methods reach none; time/randomness functions are a frozen named list", 12)
 	r.Rule("C05/SCHEMA-LOADER", "every jsonschema Compile is preceded by UseLoader with a loader type declared in helm whose Load reaches no file-system or network primitive", 1)
-	r.Rule("C05/ENGINE-STATE", "no package-level variable of pkg/engine is written on the render path (concurrent renders share nothing mutable of helm's)", 1)
+	r.Rule("C05/ENGINE-STATE", "no package-level variable of the helm module is written on the render path (concurrent renders share nothing mutable of helm's)", 1)
 
 	scope := c05Scope(w, r)
 	c05Order(w, r, scope)
@@ -616,7 +616,7 @@ func c05SchemaLoader(w *World, r *Report) {
 func c05EngineState(w *World, r *Report, scope map[*ssa.Function]bool) {
 	bad := ""
 	for fn := range scope {
-		if fnPkgPath(fn) != enginePkg {
+		if !inHelm(fn) {
 			continue
 		}
 		for _, b := range fn.Blocks {
@@ -634,13 +634,13 @@ func c05EngineState(w *World, r *Report, scope map[*ssa.Function]bool) {
 						}
 						break
 					}
-					if gl, ok := root.(*ssa.Global); ok && gl.Pkg != nil && gl.Pkg.Pkg.Path() == enginePkg {
+					if gl, ok := root.(*ssa.Global); ok && gl.Pkg != nil && strings.HasPrefix(gl.Pkg.Pkg.Path(), helmMod) {
 						bad = gl.Name() + " in " + FuncName(fn)
 					}
 				}
 				if mu, ok := in.(*ssa.MapUpdate); ok {
 					if ld, ok := mu.Map.(*ssa.UnOp); ok {
-						if gl, ok := ld.X.(*ssa.Global); ok && gl.Pkg != nil && gl.Pkg.Pkg.Path() == enginePkg {
+						if gl, ok := ld.X.(*ssa.Global); ok && gl.Pkg != nil && strings.HasPrefix(gl.Pkg.Pkg.Path(), helmMod) {
 							bad = gl.Name() + " in " + FuncName(fn)
 						}
 					}
@@ -648,5 +648,5 @@ func c05EngineState(w *World, r *Report, scope map[*ssa.Function]bool) {
 			}
 		}
 	}
-	r.Check(bad == "", "C05/ENGINE-STATE", "pkg/engine", "-", "no package-level variable of pkg/engine is written on the render path", "package-level state is written during rendering: "+bad)
+	r.Check(bad == "", "C05/ENGINE-STATE", "render-path", "-", fmt.Sprintf("no package-level variable of helm is written in the %d functions of the render path", len(scope)), "package-level state is written during rendering: "+bad)
 }
